@@ -1,7 +1,7 @@
 #!/bin/bash
 # tools/tryseed.sh <patch.diff> <prop> [<prop>...]: apply a seeded change to /repo, run the
 # quick checks of the given properties, and undo the change straight afterwards.
-P=$1; shift
+P=$(readlink -f "$1"); shift
 cd /repo || exit 2
 if ! git diff --quiet; then echo "/repo is dirty"; exit 2; fi
 if ! git apply "$P" 2>/dev/null; then
